@@ -500,3 +500,126 @@ pub fn content_at(journal: &[JournalEntry], k: usize) -> Content {
     }
     c
 }
+
+// ---------------------------------------------------------------------------
+// Downward-closed cuts of the concurrent index flushes of ONE collection flush.
+//
+// `Collection::store_indexes` joins the flush futures of every index
+// (`try_join!(try_join_all(btree), try_join_all(bm25), try_join_all(hnsw))`):
+// against a real backend their writes interleave freely, so a power failure can
+// leave ANY combination of per-index write prefixes behind, not only the journal
+// prefixes of the one order the deterministic executor produces. Every index
+// writes only below its own directory, so such a state is rebuilt exactly by
+// applying, per index chain, a prefix of that chain's journalled writes.
+
+/// `btree_indexes/<name>` / `bm25_indexes/<name>` / `hnsw_indexes/<name>` of a backend path.
+pub fn chain_key(path: &str) -> Option<String> {
+    for kind in ["btree_indexes/", "bm25_indexes/", "hnsw_indexes/"] {
+        if let Some(at) = path.find(kind) {
+            let rest = &path[at + kind.len()..];
+            let name = rest.split('/').next().unwrap_or("");
+            if !name.is_empty() && rest.len() > name.len() {
+                return Some(format!("{kind}{name}"));
+            }
+        }
+    }
+    None
+}
+
+#[derive(Clone, Debug)]
+pub struct CutRegion {
+    /// index into `Recorded::ops`
+    pub op: usize,
+    /// journal range [start, end) of the region: a maximal run of index-chain writes
+    pub start: usize,
+    pub end: usize,
+    /// per chain (in order of first appearance) the journal positions of its writes, ascending
+    pub chains: Vec<(String, Vec<usize>)>,
+}
+
+/// The index-write region of every flush-bearing operation (explicit flush, or
+/// the closing flush of a clean reopen) in which at least two index chains wrote.
+pub fn cut_regions(rec: &Recorded) -> Vec<CutRegion> {
+    let mut out = Vec::new();
+    for (oi, r) in rec.ops.iter().enumerate() {
+        if !matches!(r.op, Op::Flush | Op::Reopen) || !r.out.is_ok() {
+            continue;
+        }
+        // first maximal run of chain writes inside the op's segment
+        let mut i = r.start;
+        while i < r.end && chain_key(rec.journal[i].mutation.path()).is_none() {
+            i += 1;
+        }
+        let start = i;
+        let mut chains: Vec<(String, Vec<usize>)> = Vec::new();
+        while i < r.end {
+            let Some(k) = chain_key(rec.journal[i].mutation.path()) else { break };
+            match chains.iter_mut().find(|(n, _)| *n == k) {
+                Some((_, v)) => v.push(i),
+                None => chains.push((k, vec![i])),
+            }
+            i += 1;
+        }
+        if chains.len() >= 2 {
+            out.push(CutRegion { op: oi, start, end: i, chains });
+        }
+    }
+    out
+}
+
+/// All prefix-length vectors of a region that are NOT journal prefixes (those
+/// are enumerated by the ordinary pass). `max_partial`: at most that many
+/// chains strictly inside (0 < p < len); `None` = the full product.
+pub fn cut_vectors(region: &CutRegion, max_partial: Option<usize>) -> Vec<Vec<usize>> {
+    let lens: Vec<usize> = region.chains.iter().map(|(_, v)| v.len()).collect();
+    let mut out = Vec::new();
+    let mut cur = vec![0usize; lens.len()];
+    loop {
+        // journal prefix <=> the applied positions are exactly region.start..region.start+m
+        let mut applied: Vec<usize> = Vec::new();
+        for (c, p) in cur.iter().enumerate() {
+            applied.extend_from_slice(&region.chains[c].1[..*p]);
+        }
+        applied.sort_unstable();
+        let is_prefix = applied.iter().enumerate().all(|(j, pos)| *pos == region.start + j);
+        let partial = cur.iter().zip(&lens).filter(|(p, l)| **p > 0 && **p < **l).count();
+        if !is_prefix && max_partial.is_none_or(|m| partial <= m) {
+            out.push(cur.clone());
+        }
+        // next vector
+        let mut c = 0;
+        loop {
+            if c == lens.len() {
+                return out;
+            }
+            if cur[c] < lens[c] {
+                cur[c] += 1;
+                break;
+            }
+            cur[c] = 0;
+            c += 1;
+        }
+    }
+}
+
+/// Store content after journal[..region.start] plus the chosen per-chain prefixes.
+pub fn cut_content(rec: &Recorded, region: &CutRegion, lens: &[usize]) -> Content {
+    let mut c = content_at(&rec.journal, region.start);
+    let mut applied: Vec<usize> = Vec::new();
+    for (ci, p) in lens.iter().enumerate() {
+        applied.extend_from_slice(&region.chains[ci].1[..*p]);
+    }
+    applied.sort_unstable();
+    for pos in applied {
+        ctlstore::apply(&mut c, &rec.journal[pos].mutation);
+    }
+    c
+}
+
+/// Expectation while the region's operation is in flight.
+pub fn cut_expectation(rec: &Recorded, region: &CutRegion) -> Expectation {
+    let r = &rec.ops[region.op];
+    let k = region.start + 1;
+    assert!(r.start < k && k < r.end, "cut region must lie strictly inside its operation");
+    expectation_at(rec, k)
+}
